@@ -97,7 +97,7 @@ def rand_md(rng, n, axis, forced=None):
         elif k == 'int':
             cats.append((rng.choice(['n', 'depth']), lambda i: rng.choice([-3, 0, 1, 7, 2 ** 40, -2 ** 62])))
         elif k == 'float':
-            cats.append((rng.choice(['f', 'pH']), lambda i: rng.choice([0.5, -2.0, 1e-7, 1.0 / 3.0, 6.02e23, 0.0])))
+            cats.append((rng.choice(['f', 'pH']), lambda i: rng.choice([0.5, -2.0, 1e-7, 1.0 / 3.0, 6.02e23, 0.0, -0.0, float('inf'), float('nan'), 5e-324])))
         elif k == 'bool':
             cats.append(('flag', lambda i: bool(rng.getrandbits(1))))
         elif k == 'tax':
@@ -139,18 +139,26 @@ def rand_case(rng, max_dim, empty_axis=False, all_zero=False, writer=None):
                             min_c=min_c, max_c=0 if (empty_axis and min_c == 0) else max_dim,
                             md='none', density=0.0 if all_zero else None)
     r, c = len(spec['oids']), len(spec['sids'])
+    if rng.random() < 0.12:
+        # ids with leading / trailing white space (they stay distinct: the original ids carry none)
+        deco = lambda i: rng.choice([' %s', '%s ', '\t%s', '%s\u3000', ' %s  ']) % i
+        spec['oids'] = [deco(i) if rng.random() < 0.5 else i for i in spec['oids']]
+        spec['sids'] = [deco(i) if rng.random() < 0.5 else i for i in spec['sids']]
+        if len(set(spec['oids'])) < r or len(set(spec['sids'])) < c:
+            spec['oids'], spec['sids'] = [i.strip() for i in spec['oids']], [i.strip() for i in spec['sids']]
     if rng.random() < 0.25:
         spec['mat'] = [[(rng.choice(EXTRA_VALUES) if v else 0.0) for v in row] for row in spec['mat']]
     spec['omd'], ok = rand_md(rng, r, 'observation')
     spec['smd'], sk = rand_md(rng, c, 'sample')
-    spec['id'] = rng.choice([None, None, 'tid', 'table é 7', ''])
+    spec['id'] = rng.choice([None, None, 'tid', 'table é 7', '', ' padded id ', '0'])
     gm = lambda: rng.choice([None, None, None, {'tree': ['newick', '((a,b),c);']},
-                             {'graph': ['text', 'payload ü 样'], 'tree': ['newick', '(x:0.1,y:2);']}])
+                             {'graph': ['text', 'payload ü 样'], 'tree': ['newick', '(x:0.1,y:2);']},
+                             {'notes': [' t ', '  two lines\nwith blanks around \n'], 'empty': ['text', '']}])
     spec['ogmd'], spec['sgmd'] = gm(), gm()
     if rng.random() < 0.3:
         spec['layout'] = list(spec['layout']) + rng.choice([['poke_zero'], ['poke_reverse'], ['poke_zero', 'poke_reverse'],
                                                              ['colaccess', 'poke_zero', 'poke_reverse']])
-    case = {'kind': 'table', 'spec': spec, 'genby': rng.choice(['gen by', 'biom-format-verif 0.1', 'gén "x", \\y', 'g']),
+    case = {'kind': 'table', 'spec': spec, 'genby': rng.choice(['gen by', 'biom-format-verif 0.1', 'gén "x", \\y', 'g', ' spaced out ', '']),
             'date': rand_date(rng), 'compress': bool(rng.getrandbits(1)),
             'h5_axis': rng.choice(['sample', 'sample', 'observation']),
             'writer': writer or rng.choice(['to_hdf5', 'to_hdf5', 'biom_open', 'save_table'])}
@@ -345,6 +353,15 @@ def md_rows(md):
     return [{str(k): md_value(v) for k, v in dict(m).items()} if m is not None else None for m in md]
 
 
+def text_value(x):
+    """a text field by type and value (bytes must not pass for text)"""
+    if x is None or isinstance(x, str):
+        return x
+    if isinstance(x, bytes):
+        return ['bytes', btext(x)]
+    return ['other', repr(x)[:80]]
+
+
 def date_value(cd):
     """creation date by type and value: a datetime must come back as a datetime"""
     if isinstance(cd, datetime.datetime):
@@ -375,7 +392,7 @@ def loaded_snapshot(t):
             'mat': [[fbits(v) for v in row] for row in dense.tolist()] if dense.shape[0] and dense.shape[1]
             else [[] for _ in range(dense.shape[0])],
             'omd': md_rows(t.metadata(axis='observation')), 'smd': md_rows(t.metadata()),
-            'type': t.type, 'id': t.table_id, 'genby': t.generated_by,
+            'type': text_value(t.type), 'id': text_value(t.table_id), 'genby': text_value(t.generated_by),
             'date': date_value(cd),
             'ogmd': gm(t.group_metadata(axis='observation')), 'sgmd': gm(t.group_metadata())}
 
